@@ -33,6 +33,10 @@ class Prop:
     def nontrivial(self, world):
         return True
 
+    def after_run(self, hist, world):
+        """hook for checks that need a second (twin) execution; may add violations to `world`"""
+        return None
+
 
 def add_faults(g, events, rng, cfg):
     """fault plan drawn after the event list (DESIGN 2.3): GC pre-emptions and kernel faults"""
@@ -397,6 +401,8 @@ def run_history(hist, stop_on_violation=True, use_known=True):
     w = World(cfg, prop.observers(hist))
     try:
         w.run(hist["events"])
+        if not w.violations and not hist.get("_is_twin"):
+            prop.after_run(hist, w)
     finally:
         if env.SIM_ID.reuses:
             w.stats["fault.id_reuse"] = env.SIM_ID.reuses
@@ -964,3 +970,127 @@ class C09(Prop):
 
 
 register(C09())
+
+
+# ======================================================================================
+# twin histories (C10, C13, C18)
+# ======================================================================================
+def run_twin(hist, events, cfg_over=None):
+    import copy
+
+    th = {"prop": hist["prop"], "cfg": dict(hist["cfg"]), "events": events, "seed": hist.get("seed", 0), "_is_twin": True}
+    th["cfg"]["checkpoints"] = True
+    if cfg_over:
+        th["cfg"].update(cfg_over)
+    return run_history(th, use_known=False)
+
+
+def compare_checkpoints(w, tw, prop, oracle, grads="reach", skip_handles=(), what="twin"):
+    """bit-identical values (and gradients) at every backward checkpoint of the two executions"""
+    a, b = w.checkpoints, tw.checkpoints
+    if len(a) != len(b):
+        w.count("twin.checkpoint_count_differs")
+        return False
+    for ca, cb in zip(a, b):
+        if ca["tgt"] != cb["tgt"]:
+            w.count("twin.checkpoint_target_differs")
+            return False
+        for h, sa in ca["state"].items():
+            if h in skip_handles or h not in cb["state"]:
+                continue
+            sb = cb["state"][h]
+            if sa[:3] != sb[:3]:
+                w.violation(prop, f"{oracle}_value", f"checkpoint at step {ca['step']}: handle {h} holds different values in the {what} history", tag=f"{oracle}_value")
+                return True
+            if grads == "none":
+                continue
+            if grads == "reach" and not (h in ca["reach"] and h in cb["reach"]):
+                continue
+            if sa[3] != sb[3]:
+                ga = None if sa[3] is None else np.frombuffer(sa[3][0], dtype=sa[3][1]).tolist()
+                gb = None if sb[3] is None else np.frombuffer(sb[3][0], dtype=sb[3][1]).tolist()
+                w.violation(prop, f"{oracle}_grad", f"checkpoint at step {ca['step']}: handle {h} has gradient {ga!r:.100} but {gb!r:.100} in the {what} history", tag=f"{oracle}_grad")
+                return True
+    w.probe("twin.compared")
+    return False
+
+
+def _filter_events(events, drop_ids):
+    out = []
+    for ev in events:
+        if id(ev) in drop_ids:
+            continue
+        if ev["k"] == "scope":
+            ev = dict(ev)
+            ev["body"] = _filter_events(ev.get("body", []), drop_ids)
+        out.append(ev)
+    return out
+
+
+# ======================================================================================
+# C13 - a failed operation leaves no trace
+# ======================================================================================
+class C13(Prop):
+    id = "C13"
+    title = "a failed operation leaves no trace"
+    rule = (
+        "epoch / lock histories with failing statements of every kind (natural: bad shapes, indices, axes, read-only targets, bad out=, bad "
+        "seeds, bad .shape; injected kernel failures) inserted anywhere, GC pre-emption during rollback; snapshot-before = snapshot-after for "
+        "every live object, and the twin history without the failing statements ends bit-identically.  non-trivial when >=1 statement failed "
+        "and the twin comparison ran; distinct by (event kind, outcome)"
+    )
+    expected_probes = ["c13.failed_statement_checked", "twin.compared"]
+
+    def generate(self, rng):
+        cfg = {
+            "lane": rng.choice(["epoch", "epoch", "lock"]),
+            "id_policy": rng.choice(["never", "never", "lifo"]),
+            "max_elems": rng.choice([6, 12]),
+            "max_ndim": rng.choice([1, 2, 3]),
+            "dtypes": rng.choice([["f8"], ["f8", "f4"]]),
+            "tape": True,
+            "exact": rng.random() < 0.5,
+            "checkpoints": True,
+            "kernel_fault_p": rng.choice([0.05, 0.1, 0.2]),
+            "gc_preempt_p": rng.choice([0.0, 0.0, 0.1]),
+        }
+        if cfg["exact"]:
+            cfg["dtypes"] = ["f8"]
+        g = Gen(rng, cfg)
+        if cfg["lane"] == "epoch":
+            w = {"view": 4, "adv": 1, "read": 3, "setitem": 3, "iop": 2, "ufunc": 2, "setshape": rng.choice([0, 1]), "drop": 0.5, "leaf": 0.5, "fail": rng.choice([2, 4])}
+            eg = EpochGen(g, {"weights": w, "max_events": rng.choice([8, 14]), "end": [("backward", 1)], "only_fresh": rng.random() < 0.6})
+            eg.run(rng.randint(1, 3))
+        else:
+            c8 = PROPS["C08"]
+            w = {"arr": 2, "aview": 1, "wrap": 2, "leaf": 2, "grab": 1, "unary": 3, "binary": 5, "reduce": 2, "view": 4, "adv": 1, "out_arr": 2, "setitem": 3, "iop": 2,
+                 "ufunc": 3, "backward": 2, "clear": 0.5, "null_grad": 0.3, "drop_t": 3, "drop_a": 0.5, "gc": 0.5, "scope": 0.5, "toggle": 0, "write": 1, "fail": 4, "misc": 1}
+            c8._body(g, rng.randint(10, 35), w, 0)
+            hs = [h for h in g.float_tensors() if not g.t[h].const]
+            if hs:
+                g.backward(g.choice(hs))
+        # a bad seed as a failing backward
+        add_faults(g, g.ev, rng, cfg)
+        return {"prop": self.id, "cfg": cfg, "events": g.ev}
+
+    def observers(self, hist):
+        # the lock clause ("arrays locked only on behalf of the failed operation are released") is
+        # judged by the C08 lock model right after every failed statement
+        return [O.NoTraceOracle(), O.LockOracle("C13", only_after_failure=True)]
+
+    def after_run(self, hist, w):
+        if not w.failed_events:
+            return
+        ev2 = _filter_events(hist["events"], set(w.failed_events))
+        tw = run_twin(hist, ev2)
+        if tw.failed_events:
+            # removing a failing statement changed what another statement does: not comparable
+            w.count("twin.incomparable")
+            return
+        compare_checkpoints(w, tw, "C13", "C13.twin", what="failing-statements-removed")
+
+    def nontrivial(self, world):
+        return world.probes.get("c13.failed_statement_checked", 0) > 0
+
+
+register(C13())
